@@ -150,3 +150,32 @@ Proof.
   destruct (leader_log s I c Hl) as (el & q & Hin & Hp & _).
   eapply prefix_trans; [|exact Hp]. eapply L; eauto.
 Qed.
+
+(* ---------- the overlap hypothesis is not an invariant of legal runs; the step conditions are enough ---------- *)
+
+(* Voters {1,2,3} -> add 4 -> remove 3, one change at a time, each used for a commit, then node 2 wins
+   term 3 under {1,2,4}.  The voter lists {1,2,3} and {1,2,4} have disjoint majorities ({1,3}, {2,4}),
+   so Overlap fails for this run although it is one the protocol allows; every step satisfies NoClash,
+   CommitOK and the two leader-completeness conditions, so all *_checked theorems and
+   accepted_trace_leader_completeness apply to it. *)
+Definition ex2_cf : config := mkConfig [1; 2; 3] [].
+Definition ex2_c4 : config := mkConfig [1; 2; 3; 4] [].
+Definition ex2_c3 : config := mkConfig [1; 2; 4] [].
+Definition ex2_e (p : N) : entry := mkEntry 2 1 p 0.
+
+Definition ex2_labels : list label :=
+  [ L_Campaign 1; L_ExposeCamp 1; L_UpdateTerm 2 2; L_Grant 2 1; L_BecomeLeader 1;
+    L_LeaderAppend 1 (ex2_e 1); L_Replicate 2 1; L_Ack 2 1; L_Ack 1 1; L_AdvanceCommit 1 1;
+    L_ChangeConf 1 ex2_c4; L_ChangeConf 2 ex2_c4; L_UpdateTerm 4 2; L_ChangeConf 4 ex2_c4; L_Replicate 4 1;
+    L_LeaderAppend 1 (ex2_e 2); L_Replicate 2 2; L_Replicate 4 2; L_Ack 2 2; L_Ack 4 2; L_Ack 1 2; L_AdvanceCommit 1 2;
+    L_ChangeConf 1 ex2_c3; L_ChangeConf 2 ex2_c3; L_ChangeConf 4 ex2_c3;
+    L_LeaderAppend 1 (ex2_e 3); L_Replicate 2 3; L_Ack 2 3; L_Ack 1 3; L_AdvanceCommit 1 3;
+    L_Campaign 2; L_ExposeCamp 2; L_UpdateTerm 4 3; L_Grant 4 2; L_BecomeLeader 2 ].
+
+Example ex2_run :
+  match run_lc (init ex2_cf []) ex2_labels with
+  | Some s => negb (overlap_state s) && role_eqb (rl (nodes s 2)) Leader && (cur (nodes s 2) =? 3) &&
+              (length (gcommit s) =? 3) && (length (leaders s) =? 3)
+  | None => false
+  end = true.
+Proof. vm_compute. reflexivity. Qed.
